@@ -9,14 +9,6 @@ From Bnum.Model Require Cast Convert.
 From Bnum.Generated Require Import DigitGen Loops.
 From Bnum.Proofs Require Import ImpLemmas ImpLemmas2.
 
-Lemma wr_as_arr_set out i d :
-  match Cast.wr out i d with Ret r => Done r | Panic => Panicked end = arr_set out (Z.of_nat i) d.
-Proof.
-  unfold Cast.wr. rewrite arr_set_cases by lia. rewrite Nat2Z.id.
-  destruct (Nat.ltb_spec i (length out)) as [Hlt|Hge]; [|reflexivity].
-  rewrite list_set_split by exact Hlt. reflexivity.
-Qed.
-
 (* the loop of from_uint! from any iteration i on: the model's budget f suffices when i + f steps exhaust the pb bits *)
 Lemma from_uint_loop dbg w lg pb int : 0 <= lg -> w = 2 ^ lg -> 0 < pb ->
   forall f fuel i out, pb <= Z.of_nat (i + f) * w -> (f <= fuel)%nat ->
